@@ -74,9 +74,13 @@ void execute(Item& it) {
 }  // namespace
 
 int main(int argc, char** argv) {
-  if (argc < 3) { std::fprintf(stderr, "usage: workload <seed> conc|solo [yield] | workload list\n"); return 64; }
+  if (argc < 3) { std::fprintf(stderr, "usage: workload <seed> conc|solo|solorev [yield] | workload list\n"); return 64; }
   uint64_t seed = std::strtoull(argv[1], nullptr, 10);
-  bool solo = std::string(argv[2]) == "solo", yield = argc > 3 && std::string(argv[3]) == "yield";
+  // solorev: the same calls alone, in the opposite order (a value that depends on which calls were made before it -
+  // hidden static state, a cache keyed on the first caller - differs between the two sequential orders)
+  bool solorev = std::string(argv[2]) == "solorev";
+  bool solo = std::string(argv[2]) == "solo" || solorev, yield = argc > 3 && std::string(argv[3]) == "yield";
+  api::variant() = seed;     // ellipsoids of the variant objects (api/registry.hpp)
   const auto& R = api::rows();           // building the table touches no library object
   std::vector<int> shared;
   for (size_t k = 0; k < R.size(); ++k) if (R[k].flags & api::SHARED) shared.push_back((int)k);
@@ -110,7 +114,9 @@ int main(int argc, char** argv) {
 
   // ---- fresh shared objects (main thread), then the threads start together
   api::objs();
-  if (solo) {
+  if (solorev) {
+    for (size_t t = lists.size(); t-- > 0;) for (size_t k = lists[t].size(); k-- > 0;) execute(lists[t][k]);
+  } else if (solo) {
     for (auto& l : lists) for (auto& it : l) execute(it);
   } else {
     pthread_barrier_t bar; pthread_barrier_init(&bar, nullptr, (unsigned)T);
